@@ -1663,16 +1663,28 @@ fn record_one(seed: u64) -> RecOut {
             let n = yc.fetch_add(1, Ordering::Relaxed);
             let mut r = Rng::new(seed ^ (n.wrapping_mul(0x2545_F491_4F6C_DD1D)) ^ (name.len() as u64) << 40);
             if name == "await.registered" {
-                let (m, cv) = &*hold_cb;
-                let mut g = m.lock().unwrap();
-                if g.0 {
-                    g.0 = false;
-                    g.1 = true;
-                    cv.notify_all();
-                    let t0 = Instant::now();
-                    while !g.2 && t0.elapsed() < Duration::from_secs(3) {
-                        g = cv.wait_timeout(g, Duration::from_millis(50)).unwrap().0;
+                let armed = {
+                    let (m, cv) = &*hold_cb;
+                    let mut g = m.lock().unwrap();
+                    let a = g.0;
+                    if a {
+                        g.0 = false;
+                        g.1 = true;
+                        cv.notify_all();
                     }
+                    a
+                };
+                if armed {
+                    // block_in_place: the worker task this caller spawned sits in the thread's
+                    // LIFO slot; hand the run queue to another thread while the caller is held
+                    tokio::task::block_in_place(|| {
+                        let (m, cv) = &*hold_cb;
+                        let mut g = m.lock().unwrap();
+                        let t0 = Instant::now();
+                        while !g.2 && t0.elapsed() < Duration::from_secs(3) {
+                            g = cv.wait_timeout(g, Duration::from_millis(20)).unwrap().0;
+                        }
+                    });
                     return;
                 }
             }
